@@ -16,6 +16,8 @@ func dummyOf(dt string) *TJ {
 }
 
 // gateCase calls ValidateInputs of a fresh operator on tensors of the given dtypes (nil = absent).
+var gateCounter = 0
+
 func gateCase(name string, dts []*string) *Case {
 	c := &Case{Kind: "gate", Op: name, Dts: dts, P: map[string]any{"desc": liveDesc(name, len(dts))}}
 	c.Impl = guard(func() *Result {
@@ -23,13 +25,41 @@ func gateCase(name string, dts []*string) *Case {
 		if err != nil {
 			return errResult(err)
 		}
-		ins := make([]tensor.Tensor, len(dts))
+		// the caller's slice has spare capacity holding unrelated tensors (a prefix of a longer list, a
+		// re-used buffer): what lies behind len(ins) is not an input
+		backing := make([]tensor.Tensor, len(dts)+10)
+		for i := range backing {
+			backing[i] = mkTensor(dummyOf("f32"))
+		}
+		ins := backing[:len(dts)]
 		for i, d := range dts {
+			ins[i] = nil
 			if d != nil {
 				ins[i] = mkTensor(dummyOf(*d))
 			}
 		}
 		orig := append([]tensor.Tensor{}, ins...)
+		// every other case: the instance has already validated another (longer, acceptable) list
+		gateCounter++
+		if gateCounter%2 == 0 {
+			n := op.GetMaxInputs()
+			if name == "Concat" {
+				n = len(dts) + 2
+			}
+			prior := make([]tensor.Tensor, n)
+			cons := op.GetInputTypeConstraints()
+			for i := range prior {
+				dt := "f32"
+				if name != "Concat" && i < len(cons) && len(cons[i]) > 0 {
+					dt = dtName(cons[i][0])
+				}
+				prior[i] = mkTensor(dummyOf(dt))
+			}
+			func() {
+				defer func() { recover() }()
+				op.ValidateInputs(prior)
+			}()
+		}
 		out, err := op.ValidateInputs(ins)
 		if err != nil {
 			return errResult(err)
